@@ -12,6 +12,17 @@ type state struct {
 	groups map[int]bool
 	ctxErr int // -1: no error in the request context; else raw status (0 = not a HandlerError)
 	repl   int // -1: {http.error.status_code} unset; the replacer is shared by all copies of a request
+	// RequestURI is a field of the request STRUCT (the URL sits behind a shared pointer): every
+	// WithError makes a new request object. uris holds the RequestURI (a path index) of every
+	// object in creation order; running code always holds the newest one.
+	uris []int
+}
+
+func (s state) uriStr() string {
+	if u := s.uris[len(s.uris)-1]; u != s.q.path {
+		return paths[u]
+	}
+	return ""
 }
 
 // withError is HTTPErrorConfig.WithError: the placeholder is only set for a HandlerError.
@@ -190,7 +201,7 @@ type specRun struct {
 func (x *specRun) tag(t string) { x.tags[t] = true }
 
 func (x *specRun) record(id int) {
-	x.events = append(x.events, event{id: id, path: paths[x.s.q.path], err: x.s.errStr(), repl: x.s.replStr()})
+	x.events = append(x.events, event{id: id, path: paths[x.s.q.path], uri: x.s.uriStr(), err: x.s.errStr(), repl: x.s.replStr()})
 }
 
 func (x *specRun) handlers(hs []*handler) *stop {
@@ -206,6 +217,7 @@ func (x *specRun) handlers(hs []*handler) *stop {
 			x.record(h.id)
 			x.tag("rewrite")
 			x.s.q.path = h.arg
+			x.s.uris[len(x.s.uris)-1] = h.arg // the rewrite sets RequestURI on the object it was handed
 		case 'f':
 			x.record(h.id)
 			x.tag("handler-error")
@@ -222,9 +234,14 @@ func (x *specRun) handlers(hs []*handler) *stop {
 			return &stop{isErr, st}
 		case 's':
 			x.tag("subroute")
+			own := len(x.s.uris) - 1 // the request object this invocation of the subroute holds
 			st := x.routes(h.routes)
 			if st != nil && st.isErr && h.hasErrs {
 				x.tag("subroute-errors-run")
+				if x.s.uris[own] != x.s.q.path {
+					x.tag("subroute-errors:stale-request-uri")
+				}
+				x.s.uris = append(x.s.uris, x.s.uris[own]) // WithError copies ITS request object
 				x.s.withError(st.status)
 				st = x.routes(h.errs)
 			}
@@ -302,7 +319,7 @@ func (x *specRun) routes(rs []*route) *stop {
 
 // specEval evaluates a request by the documented routing rules.
 func specEval(rs []*route, hasErrs bool, errs []*route, q request) (outcome, map[string]bool) {
-	x := &specRun{s: state{q: q, groups: map[int]bool{}, ctxErr: -1, repl: -1}, tags: map[string]bool{}}
+	x := &specRun{s: state{q: q, groups: map[int]bool{}, ctxErr: -1, repl: -1, uris: []int{q.path}}, tags: map[string]bool{}}
 	st := x.routes(rs)
 	switch {
 	case st == nil:
@@ -320,6 +337,7 @@ func specEval(rs []*route, hasErrs bool, errs []*route, q request) (outcome, map
 		x.tag("error-routes:uri-restored")
 	}
 	x.s.q.path = q.path
+	x.s.uris = append(x.s.uris, q.path) // RequestURI restored on the server's object, then copied
 	x.s.withError(st.status)
 	st2 := x.routes(errs)
 	switch {
@@ -340,7 +358,7 @@ func sameEvents(a, b []event) bool {
 		return false
 	}
 	for i := range a {
-		if a[i].id != b[i].id || a[i].path != b[i].path || a[i].err != b[i].err || a[i].repl != b[i].repl {
+		if a[i] != b[i] {
 			return false
 		}
 	}
